@@ -407,7 +407,7 @@ class Env:
 
 class Gen:
     def __init__(self, rng, max_depth=4, stream='dyadic', avoid_pf11=0.9, measure_p=0.45, drop_p=0.3, zero_p=0.0,
-                 int_chan_p=0.0, plain_t_p=0.0, nest_wrap_p=0.0, typed_p=0.0, reuse_p=0.0, t_param_p=0.0):
+                 int_chan_p=0.0, plain_t_p=0.0, nest_wrap_p=0.0, typed_p=0.0, reuse_p=0.0, t_param_p=0.0, remap_idx_p=0.0):
         # the last four switch on additional shapes (all off by default, the default stream is unchanged):
         #   int_chan_p   probability that a case uses integer channel ids 0, 1, ... (and renamings 'A' <-> 0)
         #   plain_t_p    probability that a FunctionPT's expression is the time variable itself
@@ -420,6 +420,10 @@ class Gen:
         #   t_param_p    probability that a case whose only `t`-sensitive nodes are FunctionPTs gets a scope entry
         #                called `t` (`scope_with_t`): an ordinary parameter / loop index renamed to `t`, or an extra value
         self.t_param_p = t_param_p
+        #   remap_idx_p  probability that a MappingPT below a ForLoopPT re-defines the loop's index name in terms of the
+        #                index itself (`{'i': 'i + 2'}`): everything below, across repetition / sequence levels, sees the
+        #                mapped value
+        self.remap_idx_p = remap_idx_p
         self.int_chan_p = int_chan_p
         self.plain_t_p = plain_t_p
         self.nest_wrap_p = nest_wrap_p
@@ -947,6 +951,12 @@ class Gen:
                         continue
                     pm[name] = s
                     inner_env.ints[name] = v
+        if self.remap_idx_p and env.idx and r.random() < self.remap_idx_p:
+            i = force_idx if (force_idx in env.idx and r.random() < 0.8) else r.choice(sorted(env.idx))
+            form, f = r.choice([('%s + 1', lambda x: x + 1), ('%s + 2', lambda x: x + 2), ('2*%s', lambda x: 2 * x),
+                                ('2*%s + 1', lambda x: 2 * x + 1), ('3 - %s', lambda x: 3 - x)])
+            pm[i] = form % i
+            inner_env = inner_env.with_idx(i, [f(x) for x in env.idx[i]])
         body = self.template(d, inner, inner_env, force_idx, under_trafo)
         # parameter / measurement mappings can only mention names the built body declares
         names = body['_pt'].parameter_names
